@@ -47,6 +47,7 @@ type FuncContract struct {
 	InlineMax int
 	AtCall    map[string][]Clause
 	Callbacks map[string][]string // function-typed parameter -> ghost names its calls are assumed to preserve
+	Binds     []Clause            // locations the result must commit to (relational obligations)
 	Opaque    map[string]bool     // callees (short names) treated as unknown code at call sites of this function
 	DeadPaths int // number of path conditions the contracts make infeasible (reviewed)
 }
@@ -77,12 +78,15 @@ type ContractSet struct {
 }
 
 func NewContractSet() *ContractSet {
-	return &ContractSet{Funcs: map[string]*FuncContract{}, Specs: map[string]*SpecFunc{}, UFs: map[string]*UFDecl{}, Ghosts: map[string]*GhostDecl{}}
+	cs := &ContractSet{Funcs: map[string]*FuncContract{}, Specs: map[string]*SpecFunc{}, UFs: map[string]*UFDecl{}, Ghosts: map[string]*GhostDecl{}}
+	// built-in: the text accumulated in a strings.Builder object (model in vccall.go)
+	cs.Ghosts["$sb"] = &GhostDecl{Name: "$sb", Key: "Int", Val: "Str"}
+	return cs
 }
 
 var clauseKW = map[string]bool{"requires": true, "ensures": true, "modifies": true, "loop": true, "lock-balanced": true,
 	"terminates": true, "thin": true, "nopanic": true, "mode": true, "params": true, "prop": true, "pure": true, "noinline": true, "trusted": true,
-	"at-call": true, "nodeadlock": true, "inline-all": true, "dead-paths": true, "callback": true, "opaque": true}
+	"at-call": true, "nodeadlock": true, "inline-all": true, "dead-paths": true, "callback": true, "opaque": true, "binds": true, "binds-accept": true}
 
 // ParseContractFile reads //@ lines. pkgPath is the package the file belongs to ("" for dep files,
 // which must then use full names "pkgpath.Func").
@@ -292,6 +296,19 @@ func (cs *ContractSet) ParseContractFile(path, pkgPath string) error {
 					cur.AtCall = map[string][]Clause{}
 				}
 				cur.AtCall[f[1]] = append(cur.AtCall[f[1]], c)
+			case "binds", "binds-accept":
+				// binds <lvalue>, ...: the (single) result commits to each listed location (relational.go)
+				// binds-accept <lvalue>, ...: two runs that both return a nil error agree on the location
+				for _, part := range splitTop(rest, ',') {
+					c, err := mk(strings.TrimSpace(part))
+					if err != nil {
+						return err
+					}
+					if kw == "binds-accept" {
+						c.Label = "accept"
+					}
+					cur.Binds = append(cur.Binds, c)
+				}
 			case "opaque":
 				// opaque <callee>, ...: calls of these callees are treated as calls of unknown code
 				// (everything reachable is havocked, their contracts are neither required nor assumed).
